@@ -218,7 +218,37 @@ func GenPrecedenceWorld(r *rng.R, c Cfg) *World {
 		w.NetPols = []NetPol{deny}
 		w.AddFeature("fullTripleAllowAboveDeny")
 	}
+	// a rule completely shadowed by an earlier rule of another action whose ONE range covers the later rule's SEVERAL separate ports
+	// (containment of a set with more ranges in a set with fewer)
+	if r.P(0.08) {
+		ingress := r.P(0.5)
+		pod, other := src, dst
+		if ingress {
+			pod, other = dst, src
+		}
+		first, second := "Allow", "Deny"
+		if r.P(0.5) {
+			first, second = "Deny", "Allow"
+		}
+		pr := rng.Pick(r, []string{"TCP", "TCP", "UDP"})
+		a := ANP{Name: "shadow", Priority: pris[0], Subject: SubjectFor(r, w, pod)}
+		rules := []ANPRule{
+			{Name: "wide", Action: first, Peers: []Subject{SubjectFor(r, w, other)}, HasPorts: true, Ports: []ANPPort{{Kind: "range", Proto: pr, Port: 80, End: 90}}},
+			{Name: "narrow", Action: second, Peers: []Subject{SubjectFor(r, w, other)}, HasPorts: true,
+				Ports: []ANPPort{{Kind: "num", Proto: pr, Port: 80}, {Kind: "num", Proto: pr, Port: 82}, {Kind: "range", Proto: pr, Port: 85, End: 86}}}}
+		if ingress {
+			a.Ingress = rules
+		} else {
+			a.Egress = rules
+		}
+		w.ANPs = append([]ANP{a}, w.ANPs[minInt(1, len(w.ANPs)):]...)
+		w.AddFeature("shadowedSplitRule")
+	}
 	rng.Shuffle(r, w.ANPs)
+	if len(w.ANPs) > 0 && r.P(0.15) { // an AdminNetworkPolicy may carry the one name a BaselineAdminNetworkPolicy must carry
+		w.ANPs[r.Intn(len(w.ANPs))].Name = "default"
+		w.AddFeature("anpNamedDefault")
+	}
 	TagNetPolFeatures(w)
 	TagAdminFeatures(w)
 	w.AddFeature("directed")
@@ -443,4 +473,114 @@ func AddIsolatedNamespace(r *rng.R, w *World) {
 		w.NetPols = append(w.NetPols, other)
 	}
 	w.AddFeature("isolatedNamespace")
+}
+
+// AddSharedEgressPolicy: ONE egress policy governs several source workloads alike, while the destination's ingress policy tells those
+// sources apart by port: whatever is computed once per (policy, destination) must not leak from one source to the next.
+func AddSharedEgressPolicy(r *rng.R, w *World) {
+	byNs := map[string][]int{}
+	for i, wl := range w.Workloads {
+		byNs[wl.Ns] = append(byNs[wl.Ns], i)
+	}
+	for _, ns := range NsNames {
+		idx := byNs[ns]
+		if len(idx) < 2 || len(w.Workloads) < 3 {
+			continue
+		}
+		var dst *Workload
+		for i := range w.Workloads {
+			if i != idx[0] && i != idx[1] {
+				dst = &w.Workloads[i]
+			}
+		}
+		if dst == nil {
+			return
+		}
+		s1, s2 := &w.Workloads[idx[0]], &w.Workloads[idx[1]]
+		if len(s1.Labels) == 0 {
+			s1.Labels = map[string]string{"app": "a"}
+		}
+		if len(s2.Labels) == 0 || SemEqualLabels(s1.Labels, s2.Labels) {
+			s2.Labels = map[string]string{"app": "b", "tier": "c"}
+		}
+		eg := NetPol{Ns: ns, Name: "shared-egress", PodSel: Sel{}, HasTypes: true, PolicyTypes: []string{"Egress"},
+			Egress: []NPRule{{Peers: []NPPeer{{PodSel: SelFor(r, dst.Labels), NsSel: SelFor(r, w.NsLabels(dst.Ns))}}}}}
+		if r.P(0.5) {
+			eg.Egress[0].Ports = []NPPort{{Port: 1, EndPort: 65535}}
+		}
+		in := NetPol{Ns: dst.Ns, Name: "per-source-ingress", PodSel: *SelFor(r, dst.Labels), HasTypes: true, PolicyTypes: []string{"Ingress"},
+			Ingress: []NPRule{
+				{Peers: []NPPeer{{PodSel: SelFor(r, s1.Labels), NsSel: SelFor(r, w.NsLabels(ns))}}, Ports: []NPPort{{Port: rng.Pick(r, []int{80, 443})}}},
+				{Peers: []NPPeer{{PodSel: SelFor(r, s2.Labels), NsSel: SelFor(r, w.NsLabels(ns))}}, Ports: []NPPort{{Port: rng.Pick(r, []int{8080, 9187})}}}}}
+		// drop other egress policies of that namespace so that exactly one governs the sources
+		keep := w.NetPols[:0]
+		for _, np := range w.NetPols {
+			if !(np.Ns == ns && np.HasDirection(false)) {
+				keep = append(keep, np)
+			}
+		}
+		w.NetPols = append(keep, eg, in)
+		w.AddFeature("sharedEgressPolicy")
+		return
+	}
+}
+
+// SemEqualLabels: the two label sets are the same.
+func SemEqualLabels(a, b map[string]string) bool {
+	if len(a) != len(b) {
+		return false
+	}
+	for k, v := range a {
+		if x, ok := b[k]; !ok || x != v {
+			return false
+		}
+	}
+	return true
+}
+
+func minInt(a, b int) int {
+	if a < b {
+		return a
+	}
+	return b
+}
+
+// AddTwinNamedPortPolicy: when the world holds true twins (same name, kind and labels in two namespaces) an egress rule reaches both of
+// them on a NAMED port that the twins declare on different numbers - the name is resolved per destination pod, not per owner name.
+func AddTwinNamedPortPolicy(r *rng.R, w *World) {
+	if len(w.Workloads) < 3 {
+		return
+	}
+	t0 := &w.Workloads[0]
+	for i := 1; i < len(w.Workloads); i++ {
+		ti := &w.Workloads[i]
+		if ti.Name != t0.Name || ti.Ns == t0.Ns || !SemEqualLabels(ti.Labels, t0.Labels) || len(t0.Labels) == 0 {
+			continue
+		}
+		has := func(wl *Workload, name string, num int) bool {
+			for _, cp := range wl.Ports {
+				if cp.Name == name || (cp.Num == num && cp.Protocol() == "TCP") {
+					return true
+				}
+			}
+			return false
+		}
+		if has(t0, "web", 8081) || has(ti, "web", 9099) {
+			return
+		}
+		t0.Ports = append(t0.Ports, CPort{Num: 8081, Name: "web", Proto: "TCP"})
+		ti.Ports = append(ti.Ports, CPort{Num: 9099, Name: "web", Proto: "TCP"})
+		for k := range w.Workloads {
+			s := &w.Workloads[k]
+			if s.Name == t0.Name {
+				continue
+			}
+			np := NetPol{Ns: s.Ns, Name: "to-twins", PodSel: *SelFor(r, s.Labels), HasTypes: true, PolicyTypes: []string{"Egress"},
+				Egress: []NPRule{{Peers: []NPPeer{{NsSel: &Sel{}, PodSel: SelFor(r, t0.Labels)}}, Ports: []NPPort{{Proto: "TCP", Name: "web"}}}}}
+			w.NetPols = append(w.NetPols, np)
+			w.AddFeature("twinNamedPortPolicy")
+			return
+		}
+		return
+	}
 }
